@@ -10,7 +10,7 @@ import passgen
 import pathlib
 import sfnt
 
-GEN_MODULES = ["Lz4", "Err"]
+GEN_MODULES = ["Lz4", "Err", "Vm", "Enums"]
 ASSUMPTIONS = ["theorems: sfnt container as FileFace reads it, Silf::readClassMap and the class look-ups, the layout half of Pass::readPass, readStates, the rule map, Pass::readRanges, cmap lookups after CheckCmapSubtable*, compressed tables and LZ4 (Props/C01.lean, C13, C14) are total / in-bounds for ALL bytes",
                "the rest of the loader (Silf, Pass, Code, Glat/Gloc, Feat/Sill/name, queries, destruction) is decided on the implementation under ASan/UBSan/LSan with mutated and structurally hostile fonts - a finite exploration, not a theorem"]
 TRUSTED = ["hand-written model GrVerif/Model/Loader.lean tied by correspondence", "sanitizers as the oracle for memory safety", "tools/fontmut.py, tools/fontsynth.py, tools/featgen.py"]
@@ -83,6 +83,18 @@ def silf_same(i, m):
     return i == m
 
 
+def ask(res, hp, fp, question, n):
+    """one question to h_pass about its base font -> n words, or None (recorded as a failure: a shipped / well-formed font the
+    engine no longer loads, or a harness that crashes on it)"""
+    out = lib.run_lines([hp, fp], [question])[0]
+    w = out.split()
+    if out.startswith(("CRASH", "fault", "bad-op")) or len(w) != n:
+        res.failures.append({"harness": "h_pass", "mode": "loader", "line": question, "impl": out[:300], "model": None, "exe_args": [fp],
+                             "why": "the base font %s is not loaded / answered by the engine any more: %s" % (pathlib.Path(fp).name, out[:120])})
+        return None
+    return w
+
+
 def comp_holds(l, i):
     if i.startswith(("CRASH", "fault")):
         return False, "out-of-bounds access / crash in the " + l.split()[0] + " component: " + i[:120]
@@ -150,7 +162,14 @@ def run(ctx):
         hp = lib.build_harness("h_pass")
         for bf in ("Padauk.ttf", "AwamiNastaliq-Regular.ttf"):
             bfp = str(lib.REPO / "tests" / "fonts" / bf)
-            cok = {pt: lib.run_lines([hp, bfp], ["collok %d" % pt])[0] for pt in (1, 2, 3, 4)}
+            cok = {}
+            for pt in (1, 2, 3, 4):
+                a = ask(res, hp, bfp, "collok %d" % pt, 1)
+                if a is None:
+                    break
+                cok[pt] = a[0]
+            if len(cok) != 4:
+                continue
             pl = []
             for k in range(1500 if q else 60000):
                 sb, pb = r.choice(pool)
@@ -186,7 +205,10 @@ def run(ctx):
             if an:
                 spool.append((str(fp), st, an))
         for fp, st, an in spool:
-            ng, na, hb = lib.run_lines([hp, fp], ["faceinfo"])[0].split()
+            a = ask(res, hp, fp, "faceinfo", 3)
+            if a is None:
+                continue
+            ng, na, hb = a
             n = (40 if q else 400) if len(st) > 40000 else (250 if q else 6000)
             hl2 = []
             for k in range(n):
@@ -201,6 +223,33 @@ def run(ctx):
             lib.correspond(ctx, res, "h_pass", "loader", hl2, comp_holds, exe_args=[fp], per_chunk=100, same=silf_same,
                            classify=lambda l, i: l.split()[0] + ":" + ("fault" if i.startswith(("fault", "CRASH")) else " ".join(x for x in i.split()[:2] if not x[:1].isdigit())),
                            rule="Face::readGraphite / Silf::readGraphite: the Silf table of %s (%d bytes), intact and mutated; the verdict (error code, pass number, or the numbers of the accepted sub-tables) must be the model's; the passes go on into the code loader under ASan" % (pathlib.Path(fp).name, len(st)))
+        # the code loader: Machine::Code's loading constructor on the constraint and action code of shipped fonts (intact and with a
+        # byte changed) and on generated programs that mostly pass its tests, with boundary operands, truncations and unknown opcodes
+        for bf in ("Padauk.ttf", "charis_r_gr.ttf", "general.ttf"):
+            bfp = str(lib.REPO / "tests" / "fonts" / bf)
+            lims = ask(res, hp, bfp, "codeinfo", 4)
+            if lims is None:
+                continue
+            li = tuple(int(x) for x in lims)
+            real = []
+            for sb, pb in passgen.silf_passes(sfnt.read_tables(pathlib.Path(bfp))["Silf"]):
+                real += passgen.pass_codes(pb)
+            cl2 = []
+            for k in range(1200 if q else 60000):
+                if real and k % 3 == 0:
+                    c, pre, rl, code = r.choice(real)
+                    pt = r.choice([2, 3])
+                    if k % 9 == 0:
+                        code = bytearray(code)
+                        i = r.randrange(len(code))
+                        code[i] = r.choice([code[i] ^ (1 << r.randrange(8)), r.randrange(256), 0, 255])
+                        code = bytes(code)
+                else:
+                    c, pt, pre, rl, code = passgen.gen_code(r, li)
+                cl2.append("code %d %d %d %d %s %s" % (1 if c else 0, pt, pre, rl, " ".join(lims), code.hex()))
+            lib.correspond(ctx, res, "h_pass", "loader", cl2, comp_holds, exe_args=[bfp], per_chunk=300,
+                           classify=lambda l, i: "code:%s:%s" % ("constraint" if l.split()[1] == "1" else "action", "fault" if i.startswith(("fault", "CRASH")) else i.split()[0]),
+                           rule="Machine::Code: %d programs of %s (intact / one byte changed) and generated programs against its limits %s; status, instruction list incl. TEMP_COPYs, data, max_ref and flags must be the model's" % (len(real), bf, "/".join(lims)))
         exe = lib.build_harness("h_seg")
         fonts, hl, meta = [], [], []
 
